@@ -151,10 +151,19 @@ class World:
             o = self.E[self.persist[tag]].get(tag=tag)
             if o is not None: self.objs[tag] = o
         return o
+    def peek(self, tag):
+        """the object with this tag if it is already in the session (no query)"""
+        o = self.objs.get(tag)
+        if o is None and tag in self.persist:
+            E = self.E[self.persist[tag]]
+            for o2 in self.db._get_cache().objects:
+                if o2.__class__ is E and o2._vals_.get(E.tag) == tag:
+                    self.objs[tag] = o2; return o2
+        return o
     def alive(self, ent=None):
         out = []
         for tag in sorted(set(self.objs) | set(self.persist)):
-            o = self.objs.get(tag)
+            o = self.peek(tag)
             if o is None:
                 if ent is None or self.persist[tag] == ent: out.append(tag)
             elif o._status_ not in DEAD and (ent is None or self.E.index(o.__class__) == ent):
@@ -478,7 +487,12 @@ class Run:
         if unknown: self.problems.append(('infrastructure: unparsed statement', unknown[:2]))
         if err is None and any(-1 in wr[1:] for wr in trace): self.problems.append(('infrastructure: statement for an unknown object', trace))
         # ---------------- property oracle
-        if not cyclic and err is not None:
+        if not hyp:
+            # a pending statement refers to a row that the same flush deletes (Pony let the application link to an object
+            # that is marked_to_delete): no order satisfies the backend; the flush may only fail cleanly
+            self.count('not-orderable:reference-to-a-row-deleted-by-the-same-flush')
+            self.byproducts.append(('reference to a marked_to_delete object accepted', self.hist))
+        if not cyclic and hyp and err is not None:
             det = {'error': str(err)[:300], 'statements_so_far': trace}
             if self.strict and trace and trace[-1][0] == 'delete' and 'FOREIGN KEY' in str(err):
                 try: det['blocked_only_by_rows_deleted_in_the_same_flush'] = w.blocking_rows_are_deleted_too(objs[trace[-1][1]])
